@@ -49,13 +49,14 @@ Shares(a, b) == Cells(a) \cap Cells(b) # {}
 Init ==
   /\ bufs = << Ints(<<3, 1, 2>>), Ints(<<20, 30, 10>>), Ints(<<7, 5>>), Ints(<<9>>),
                Ints(<<100, 300, 200>>), Ints(<<4, 6, 5>>), Ints(<<2, 0, 1>>), Ints(<<500, 700, 100>>), Ints(<<6, 2, 4>>),
-               Ints(<<900, 900, 900>>) >>            \* constant rows: equal, element by element, to the 0-d object 4 after conversion - but of another shape
+               Ints(<<900, 900, 900>>),              \* constant rows: equal, element by element, to the 0-d object 4 after conversion - but of another shape
+               Ints(<<600, 200, 400>>) >>            \* the float32 object 8 in another unit and in double precision: equal by content
   /\ heap = << mkArr(1, 3, U1("m"), "f8"), mkArr(2, 3, U1("s"), "f8"), mkArr(3, 2, U1("m"), "f8"), mkScal(4, U1("m"), "f8"),
-               mkVec(<<5, 6>>, 3, U1("cm"), "f8"), mkArr(7, 3, Unit0, "i8"), mkArr(8, 3, U1("cm"), "f8"), mkArr(9, 3, U1("m"), "f4"), mkArr(10, 3, U1("cm"), "f8") >>
+               mkVec(<<5, 6>>, 3, U1("cm"), "f8"), mkArr(7, 3, Unit0, "i8"), mkArr(8, 3, U1("cm"), "f8"), mkArr(9, 3, U1("m"), "f4"), mkArr(10, 3, U1("cm"), "f8"), mkArr(11, 3, U1("cm"), "f8") >>
   /\ dgs = << [keys |-> <<>>, val |-> <<>>, name |-> "", parent |-> 0], [keys |-> <<>>, val |-> <<>>, name |-> "", parent |-> 0] >>
   /\ dss = << [keys |-> <<>>, val |-> <<>>, meta |-> <<>>] >>
   /\ res = NoRes /\ hist = <<>> /\ act = [op |-> "init"]
-PoolObjs == 1..9
+PoolObjs == 1..10
 
 Step(a) == hist' = Append(hist, a) /\ act' = a
 En(name) == name \in Acts /\ Len(hist) < Depth
@@ -325,12 +326,15 @@ RECURSIVE WriteCells(_, _, _, _, _)
 WriteCells(b, o, nv, c, i) == IF c > NComp(o) THEN b
                               ELSE IF i > NRows(o) THEN WriteCells(b, o, nv, c + 1, 1)
                               ELSE WriteCells([b EXCEPT ![heap[o].comps[c].buf][heap[o].comps[c].idx[i]] = nv[c][i]], o, nv, c, i + 1)
+\* c = 4: the right operand is a Vector built from x's own components in rotated order (Vector(x=v.y, y=v.z, z=v.x))
 IOpSelf(op, o, c) ==
-  /\ En("iop") /\ ~IsArr(o) /\ c \in 1..NComp(o)
-  /\ ~(op = "div" /\ (heap[o].dt = "i8" \/ \E i \in 1..NRows(o) : RIsZero(Vals(o, c)[i])))
+  /\ En("iop") /\ ~IsArr(o) /\ (c \in 1..NComp(o) \/ (c = 4 /\ NComp(o) > 1))
+  /\ LET src(cc) == IF c = 4 THEN (cc % NComp(o)) + 1 ELSE c IN
+     ~(op = "div" /\ (heap[o].dt = "i8" \/ \E cc \in 1..NComp(o), i \in 1..NRows(o) : RIsZero(Vals(o, src(cc))[i])))
   /\ Step([op |-> "iop", f |-> op, o |-> o, rhs |-> 0 - c, q |-> FALSE]) /\ UNCHANGED <<dgs, dss>>
   /\ LET u == heap[o].unit
-         nv == [cc \in 1..NComp(o) |-> [i \in 1..NRows(o) |-> RApply(op, Vals(o, cc)[i], Vals(o, c)[i])]]
+         src(cc) == IF c = 4 THEN (cc % NComp(o)) + 1 ELSE c
+         nv == [cc \in 1..NComp(o) |-> [i \in 1..NRows(o) |-> RApply(op, Vals(o, cc)[i], Vals(o, src(cc))[i])]]
      IN /\ bufs' = WriteCells(bufs, o, nv, 1, 1)
         /\ heap' = [heap EXCEPT ![o].unit = CASE op \in {"add", "sub"} -> u [] op = "mul" -> UMul(u, u) [] op = "div" -> UDiv(u, u)]
         /\ res' = ObjRes(o)
@@ -441,7 +445,7 @@ Next ==
   \/ \E g \in Gs, p \in {<<3, 1, 2>>, <<2, 1>>, <<2, 2, 1>>} : DgSortByIdx(g, p)
   \/ \E op \in OpsUse, o \in (IF ObjUse = {} THEN Os ELSE ObjUse \cap Os), rhs \in {0} \cup (IF ObjUse = {} THEN Os ELSE ObjUse \cap Os) :
          IOpArgsOk(o, rhs) /\ \E q \in (IF rhs # 0 /\ IsArr(rhs) THEN BOOLEAN ELSE {FALSE}) : IOpQ(op, o, rhs, q)
-  \/ \E op \in OpsUse, o \in (IF ObjUse = {} THEN Os ELSE ObjUse \cap Os), c \in 1..3 : IOpSelf(op, o, c)
+  \/ \E op \in OpsUse, o \in (IF ObjUse = {} THEN Os ELSE ObjUse \cap Os), c \in 1..4 : IOpSelf(op, o, c)
   \/ \E g, h \in Gs : DgEq(g, h)
   \/ \E d \in Ds, k \in Keys, g \in Gs : DsSet(d, k, g)
   \/ \E d \in Ds, k \in Keys : DsSetBad(d, k, 1) \/ DsUpdateBad(d, k, 5) \/ DsDel(d, k) \/ DsPop(d, k) \/ DsPopD(d, k) \/ DsGet(d, k)
